@@ -724,7 +724,7 @@ class SlidingWindowSemaphore(TaskSemaphore):
             if tag not in self._tag_sequences:
                 raise ValueError(f"Attempted to release unknown tag: {tag}")
             max_sequence = self._tag_sequences[tag]
-            if self._lowest_sequence[tag] == sequence_number:
+            if self._lowest_sequence[tag] == sequence_number < max_sequence:
                 # We can immediately process this request and free up
                 # resources.
                 self._lowest_sequence[tag] += 1
